@@ -45,11 +45,14 @@ import (
 
 func init() {
 	h.Register(&h.Prop{ID: "C20", Gen: genC20, Exec: withPrim(map[string]h.ExecFn{
-		"json.print":  exJSONPrint,
-		"json.parse":  exJSONParse,
-		"json.valid":  exJSONValid,
-		"go.json.rt":  goJSONRoundTrip,
-		"go.json.mal": goJSONMalformed,
+		"json.print":        exJSONPrint,
+		"json.parse":        exJSONParse,
+		"json.valid":        exJSONValid,
+		"go.json.rt":        goJSONRoundTrip,
+		"go.json.mal":       goJSONMalformed,
+		"go.json.reuse":     goJSONReuse,
+		"go.json.reuse.env": goEnvelopeReuse,
+		"go.json.cellroots": goCellRoots,
 	})})
 }
 
@@ -583,8 +586,7 @@ func c20RoundTrip(r c20Resolved, v reflect.Value) string {
 }
 
 func goJSONRoundTrip(a []string) string {
-	switch a[0] {
-	case "inbody", "extout":
+	if envKinds[a[0]] != nil {
 		return goBodyRoundTrip(a)
 	}
 	r := c20Resolve(a, true)
@@ -650,15 +652,11 @@ func goJSONMalformed(a []string) (res string) {
 	doc := h.MustUnHex(a[len(a)-1])
 	var typ reflect.Type
 	var r c20Resolved
-	switch a[0] {
-	case "inbody":
-		typ = reflect.TypeOf(abi.InMsgBody{})
-	case "extout":
-		typ = reflect.TypeOf(abi.ExtOutMsgBody{})
-	default:
-		r = c20Resolve(a[:len(a)-1], false)
-		typ = r.typ
+	if k := envKinds[a[0]]; k != nil {
+		return goEnvelopeMalformed(k, doc)
 	}
+	r = c20Resolve(a[:len(a)-1], false)
+	typ = r.typ
 	stage := "unmarshal"
 	defer func() {
 		if x := recover(); x != nil {
@@ -705,48 +703,27 @@ func goJSONMalformed(a []string) (res string) {
 //
 //	inbody empty | inbody unknown <op|-> <table> | inbody known <name>
 func goBodyRoundTrip(a []string) string {
-	in := a[0] == "inbody"
+	k := envKinds[a[0]]
 	var op *uint32
-	mk := func(sum string, val any) any {
-		if in {
-			return abi.InMsgBody{SumType: sum, OpCode: op, Value: val}
-		}
-		return abi.ExtOutMsgBody{SumType: sum, OpCode: op, Value: val}
-	}
-	fresh := func() any {
-		if in {
-			return &abi.InMsgBody{}
-		}
-		return &abi.ExtOutMsgBody{}
-	}
-	parts := func(x any) (string, *uint32, any) {
-		switch b := x.(type) {
-		case *abi.InMsgBody:
-			return b.SumType, b.OpCode, b.Value
-		case *abi.ExtOutMsgBody:
-			return b.SumType, b.OpCode, b.Value
-		}
-		return "?", nil, nil
-	}
+	mk := func(sum string, val any) any { return k.mk(sum, op, val) }
+	fresh := k.fresh
+	parts := envParts
 	var v any
 	switch a[1] {
 	case "empty":
-		v = mk(abi.EmptyMsgOp, nil)
+		if len(a) > 2 && a[2] != "-" { // an op code on an empty body is not printed: outside the round trip
+			return "bad-op"
+		}
+		v = mk(k.empty, nil)
 	case "unknown":
 		if a[2] != "-" {
 			x := uint32(pu64(a[2]))
 			op = &x
 		}
 		cs := h.BuildCells(h.ParseTable(a[3]))
-		v = mk(abi.UnknownMsgOp, cs[0])
+		v = mk(k.unknown, cs[0])
 	case "known":
-		var proto any
-		var ok bool
-		if in {
-			proto, ok = abi.KnownMsgInTypes[a[2]]
-		} else {
-			proto, ok = abi.KnownMsgExtOutTypes[a[2]]
-		}
+		proto, ok := k.registry[a[2]]
 		if !ok {
 			return "FAIL unknown-known-type " + a[2]
 		}
@@ -772,6 +749,10 @@ func goBodyRoundTrip(a []string) string {
 		case abi.InMsgBody:
 			return &x
 		case abi.ExtOutMsgBody:
+			return &x
+		case abi.JettonPayload:
+			return &x
+		case abi.NFTPayload:
 			return &x
 		}
 		return nil
@@ -1081,6 +1062,7 @@ func genC20(g *h.G) {
 	allDocs := map[string]struct{}{}
 
 	// emit: value ops + mutated documents for one value. toks = family tokens + value tokens; ttoks = type tokens.
+	prev := map[string][]string{}
 	emit := func(ttoks []string, vtoks []string, opts struct{ model, rt, ascii, noPrint bool }) {
 		full := append(append([]string{}, ttoks...), vtoks...)
 		if opts.model && !opts.noPrint {
@@ -1088,6 +1070,15 @@ func genC20(g *h.G) {
 		}
 		if opts.rt {
 			g.Emit("go.json.rt", full...)
+			// destination reuse: the previous value of the same type, then this one, into ONE variable — and back
+			tk := strings.Join(ttoks, " ")
+			if pv, ok := prev[tk]; ok && strings.Join(pv, " ") != strings.Join(vtoks, " ") {
+				hd := []string{fmt.Sprint(len(ttoks))}
+				g.Count("reuse_pair")
+				g.Emit("go.json.reuse", append(append(append(append(hd, fmt.Sprint(len(pv))), ttoks...), pv...), vtoks...)...)
+				g.Emit("go.json.reuse", append(append(append(append(hd, fmt.Sprint(len(vtoks))), ttoks...), vtoks...), pv...)...)
+			}
+			prev[tk] = vtoks
 		}
 		g.NonTrivial(strings.Join(full, " "))
 		// the real document, to derive mutations from
@@ -1383,12 +1374,160 @@ func genC20(g *h.G) {
 		g.Count("body_known")
 		g.Emit("go.json.rt", "extout", "known", k, "-")
 	}
+	genC20Envelopes(g, c)
+}
+
+// genC20Envelopes: deterministic part (every run, every seed): the four envelope types over every SumType (empty,
+// cell with and without op code, every registered name), hand-made and mutated documents incl. malformed text INSIDE the
+// Value of a registered body, destination reuse, cell documents with 0/2/3 roots.
+func genC20Envelopes(g *h.G, c *c20Gen) {
+	cells := [][]h.Row{
+		{{Ty: 0, BitLen: 0}},
+		{{Ty: 0, BitLen: 32, Data: []byte{0, 0, 0, 0}}},
+		{{Ty: 0, BitLen: 9, Data: []byte{0xff, 0x80}, Refs: []int{1, 1}}, {Ty: 0, BitLen: 3, Data: []byte{0xa0}}},
+		g.RandOrdinaryTable(h.DagOpts{MaxCells: 6}),
+	}
+	kinds := []string{"inbody", "extout", "jetton", "nft"}
+	for ki, kn := range kinds {
+		k := envKinds[kn]
+		var names []string
+		for n := range k.registry {
+			names = append(names, n)
+		}
+		sort.Strings(names)
+		g.Emit("go.json.rt", kn, "empty")
+		var goodDocs []string
+		for ci, t := range cells {
+			ts := h.TableString(t)
+			for _, op := range []string{"-", "0", "4294967295", fmt.Sprint(uint32(0x7362d09c) + uint32(ci))} {
+				g.Count("envelope_unknown_" + kn)
+				g.Emit("go.json.rt", kn, "unknown", op, ts)
+			}
+			cd, err := json.Marshal(h.BuildCells(t)[0])
+			if err != nil {
+				continue
+			}
+			if d, err := json.Marshal(k.mk(k.unknown, nil, h.BuildCells(t)[0])); err == nil {
+				goodDocs = append(goodDocs, string(d))
+			}
+			x := uint32(ci + 1)
+			if d, err := json.Marshal(k.mk(k.unknown, &x, h.BuildCells(t)[0])); err == nil {
+				goodDocs = append(goodDocs, string(d))
+			}
+			kn0 := ""
+			if len(names) > 0 {
+				kn0 = names[(ci+ki)%len(names)]
+			}
+			for _, d := range envelopeDocsFor(k.unknown, string(cd), kn0) {
+				g.Count("envelope_doc_" + kn)
+				g.Emit("go.json.mal", kn, h.Hex([]byte(d)))
+			}
+		}
+		goodDocs = append(goodDocs, `{}`, `{"SumType":""}`, `{"OpCode":4}`)
+		for i, n := range names {
+			g.Count("envelope_known_" + kn)
+			g.Emit("go.json.rt", kn, "known", n, []string{"-", fmt.Sprint(uint32(i) * 2654435761)}[i%2])
+			zero, err := json.Marshal(reflect.Zero(reflect.TypeOf(k.registry[n])).Interface())
+			if err != nil {
+				zero = []byte(`{}`)
+			}
+			for _, d := range innerMalformedDocs(n, string(zero)) {
+				g.Count("envelope_inner_doc_" + kn)
+				g.Emit("go.json.mal", kn, h.Hex([]byte(d)))
+			}
+			if d, err := json.Marshal(k.mk(n, nil, reflect.Zero(reflect.TypeOf(k.registry[n])).Interface())); err == nil {
+				if len(goodDocs) < 24 || i%7 == int(g.Seed%7) {
+					goodDocs = append(goodDocs, string(d))
+				}
+				// mutations of a named body: the malformed text lands inside Value as well
+				if g.Thorough() || (i+ki)%5 == int(g.Seed%5) {
+					for _, m := range c.mutate(d, false) {
+						g.Emit("go.json.mal", kn, h.Hex(m))
+					}
+				}
+			}
+		}
+		// destination reuse over the envelope: every ordered pair of a small set, then a chain over the rest
+		for i := range goodDocs {
+			for j := range goodDocs {
+				if i != j && (i < 9 && j < 9 || j == (i+1)%len(goodDocs)) {
+					g.Count("envelope_reuse")
+					g.Emit("go.json.reuse.env", kn, h.Hex([]byte(goodDocs[i])), h.Hex([]byte(goodDocs[j])))
+				}
+			}
+		}
+	}
+	bad, good := multiRootCellDocs(g)
+	for _, fam := range []string{"cell", "anycell"} {
+		for _, d := range append(append([][]byte{}, bad...), good...) {
+			g.Count("cell_roots_doc")
+			g.Emit("go.json.cellroots", fam, h.Hex(d))
+			g.Emit("go.json.mal", fam, h.Hex(d))
+			g.Emit("json.parse", fam, h.Hex(d))
+		}
+	}
+	for _, kn := range kinds {
+		k := envKinds[kn]
+		for _, d := range bad {
+			g.Emit("go.json.mal", kn, h.Hex([]byte(`{"SumType":"`+k.unknown+`","Value":`+string(d)+`}`)))
+		}
+	}
+	// Maybe: a present value, then null, into one variable (and present after present, null after null)
+	ts := h.TableString(cells[2])
+	for _, m := range []struct {
+		tt   []string
+		a, b string
+	}{
+		{[]string{"maybe", "uint", "32"}, "7", "4294967295"}, {[]string{"maybe", "uint", "5"}, "31", "1"},
+		{[]string{"maybe", "int", "64"}, "-9223372036854775808", "5"}, {[]string{"maybe", "uint", "64"}, "18446744073709551615", "2"},
+		{[]string{"maybe", "grams"}, "1000000000", "3"}, {[]string{"maybe", "bits", "32"}, h.Hex(bytes.Repeat([]byte{0xab}, 32)), h.Hex(bytes.Repeat([]byte{1}, 32))},
+		{[]string{"maybe", "big", "Uint256"}, "115792089237316195423570985008687907853269984665640564039457584007913129639935", "9"},
+		{[]string{"maybe", "magic"}, "4294967295", "1"}, {[]string{"maybe", "anycast"}, "3,5", "30,4294967295"},
+		{[]string{"maybe", "anycell"}, ts, h.TableString(cells[1])},
+	} {
+		hd := func(n int) []string { return append([]string{fmt.Sprint(len(m.tt)), fmt.Sprint(n)}, m.tt...) }
+		g.Count("maybe_reuse")
+		g.Emit("go.json.reuse", append(hd(2), "some", m.a, "none")...)
+		g.Emit("go.json.reuse", append(hd(1), "none", "some", m.a)...)
+		g.Emit("go.json.reuse", append(hd(2), "some", m.a, "some", m.b)...)
+		g.Emit("go.json.reuse", append(hd(2), "some", m.b, "some", m.a)...)
+	}
 }
 
 var envDir = map[string]string{"inbody": "in", "extout": "out"}
 
 // envelopeDocs: hand-made documents for the message-body envelopes around one cell document `cell` (a JSON string)
-func envelopeDocs(cell string, known string) []string {
+func envelopeDocs(cell string, known string) []string { return envelopeDocsFor("Unknown", cell, known) }
+
+// innerMalformedDocs: a REGISTERED body name around a malformed / missing / wrongly typed Value, and unregistered names
+func innerMalformedDocs(known string, good string) []string {
+	q := `{"SumType":"` + known + `",`
+	return []string{
+		q + `"Value":12}`, q + `"Value":"zzz"`, q + `"Value":[]`, q + `"Value":[` + good + `]}`, q + `"Value":true}`,
+		q + `"Value":{"Text":12}}`, q + `"Value":{"QueryId":"x"}}`, q + `"Value":{"QueryId":-1}}`, q + `"Value":{"QueryId":1.5}}`,
+		q + `"Value":{"Amount":{}}}`, q + `"Value":{"Amount":[1]}}`, q + `"Value":{"Destination":5}}`, q + `"Value":{"Destination":"zz"}}`,
+		q + `"Value":{"NoSuchField":1}}`, q + `"Value":{}}`, q + `"Value":null}`, `{"SumType":"` + known + `"}`, q + `"OpCode":3}`,
+		q + `"Value":` + good + `}`, q + `"OpCode":9,"Value":` + good + `}`, q + `"Value":` + good + `,"Value":5}`,
+		q + `"Value":5,"Value":` + good + `}`, q + `"OpCode":"9","Value":` + good + `}`,
+		`{"SumType":"NoSuchBodyType"}`, `{"SumType":"NoSuchBodyType","Value":` + good + `}`, `{"SumType":"NoSuchBodyType","Value":5}`,
+		`{"SumType":"` + known + ` ","Value":` + good + `}`, `{"SumType":"` + strings.ToLower(known) + `x","Value":` + good + `}`,
+	}
+}
+
+func envelopeDocsFor(unk string, cell string, known string) []string {
+	ds := envelopeDocsUnknown(cell, known)
+	if unk != "Unknown" {
+		for i := range ds {
+			ds[i] = strings.ReplaceAll(strings.ReplaceAll(ds[i], "Unknown", unk), "Unk\\u006eown", unk)
+		}
+		ds = append(ds, `{"SumType":"`+unk+`"}`, `{"SumType":"`+unk+`","OpCode":5}`, `{"SumType":"`+unk+`","Value":""}`,
+			`{"SumType":"`+unk+`","Value":"`+"\""+`"}`, `{"SumType":"`+unk+`","Value":"0"}`, `{"SumType":"`+unk+`","Value":1}`,
+			`{"SumType":"`+unk+`","OpCode":77,"Value":`+cell+`}`)
+	}
+	return ds
+}
+
+func envelopeDocsUnknown(cell string, known string) []string {
 	return []string{
 		`{}`, ` { } `, `null`, `[]`, `"x"`, `5`, `true`, `{"SumType":""}`, `{"SumType":"","OpCode":7}`, `{"OpCode":7}`,
 		`{"SumType":"Unknown","Value":` + cell + `}`, `{"Value":` + cell + `,"SumType":"Unknown"}`,
